@@ -144,7 +144,7 @@ impl Prop for C17Prop {
         "C17"
     }
     fn rule(&self) -> String {
-        "Streams (proptest tapes): mixed = 3-8 files with BOM-selected encodings and one malformed file in one invocation (1-4 worker threads): every good file still equals BOM + E(format(text)) and the malformed one is untouched; enc = scenarios over 45 encoding labels (UTF-8, UTF-16LE/BE, windows-125x/874, ISO-8859-x, KOI8, IBM866, Mac, Shift_JIS, EUC-JP, ISO-2022-JP, GBK, gb18030, Big5, EUC-KR and aliases) x BOM {none, UTF-8, UTF-16LE, UTF-16BE} (a BOM overrides the configured encoding) x texts = small unformatted programs whose identifiers, strings and comments use characters from a pool (Latin, Cyrillic, Greek, Hebrew, Arabic, Thai, CJK, kana, hangul, U+3000, astral) kept only when representable in the deciding encoding, ASCII-only texts included x {file rewritten in place, stdin -> stdout} x generated configuration; malformed = per encoding a byte sequence the decoder rejects. Oracle: the bytes written equal BOM + E(format_lib(text)) with E = a hand-written UTF-8/UTF-16 encoder or encoding_rs for legacy encodings; malformed input: exit non-zero, file bytes and mtime untouched, nothing on stdout. Non-trivial = a character >= U+0080 survives into the output or a BOM is present; distinct by hash of the scenario."
+        "Streams (proptest tapes): mixed = 20-60 files with BOM-selected encodings and one malformed file in one invocation (1-4 worker threads): every good file still equals BOM + E(format(text)) and the malformed one is untouched; enc = scenarios over 45 encoding labels (UTF-8, UTF-16LE/BE, windows-125x/874, ISO-8859-x, KOI8, IBM866, Mac, Shift_JIS, EUC-JP, ISO-2022-JP, GBK, gb18030, Big5, EUC-KR and aliases) x BOM {none, UTF-8, UTF-16LE, UTF-16BE} (a BOM overrides the configured encoding) x texts = small unformatted programs whose identifiers, strings and comments use characters from a pool (Latin, Cyrillic, Greek, Hebrew, Arabic, Thai, CJK, kana, hangul, U+3000, astral) kept only when representable in the deciding encoding, ASCII-only texts included x {file rewritten in place, stdin -> stdout} x generated configuration; malformed = per encoding a byte sequence the decoder rejects. Oracle: the bytes written equal BOM + E(format_lib(text)) with E = a hand-written UTF-8/UTF-16 encoder or encoding_rs for legacy encodings; malformed input: exit non-zero, file bytes and mtime untouched, nothing on stdout. Non-trivial = a character >= U+0080 survives into the output or a BOM is present; distinct by hash of the scenario."
             .into()
     }
     fn assumptions(&self) -> Vec<String> {
@@ -163,13 +163,14 @@ impl Prop for C17Prop {
             // several files with different BOM-selected encodings in ONE invocation, a malformed
             // one among them: every good file is still written in its own encoding
             let cfg = Cfg::gen_unsaturated(t);
-            let n = 3 + t.below(6);
-            let bad_at = t.below(n);
+            // enough files that a worker's reused input buffer sees several files in a row
+            let n = 20 + t.below(40);
+            let bad_at = t.below(n / 2 + 1);
             let mut files = vec![];
             for i in 0..n {
                 let bom = (*t.pick(&["none", "utf8", "utf16le", "utf16be"])).to_string();
                 let ch = *t.pick(&['é', 'Ж', '中', '😀', 'x']);
-                let text = format!("procedure   P{i};\nbegin\n  S:='{ch}{ch}'  +  Foo( {i},1 ,2);   //{ch}note\nend;\n").repeat(1 + t.below(30) as usize);
+                let text = format!("procedure   P{i};\nbegin\n  S:='{ch}{ch}'  +  Foo( {i},1 ,2);   //{ch}note\nend;\n").repeat(1 + t.below(6) as usize);
                 files.push(serde_json::json!({"bom": bom, "text": text, "bad": i == bad_at}));
             }
             let mut c = Case::text("mixed", String::new(), cfg);
